@@ -50,6 +50,8 @@ def _job(args):
         mod = importlib.import_module(modname)
         if kind == "trace":
             t = mod.traces(tier)[idx]
+            if tier == "thorough" and getattr(t, "budget_s", None):
+                t.budget_s = t.budget_s * 5  # thorough: the heavy SE_2(3) traces need ~20 min each on a loaded machine
             rs = t.run(seed)
             meta = {"id": t.id, "functions": [source_hash(f) for f in t.functions], "inputs": [s.describe() for s in t.inputs],
                     "n_instr": getattr(t, "n_instr", None), "lemmas": t.lemmas, "note": t.note}
@@ -112,6 +114,13 @@ def main(argv=None):
         print(f"unknown or not-applicable property {prop}")
         return 3
     sys.path.insert(0, ROOT)
+    try:
+        import cyecca
+        cy = os.path.dirname(os.path.abspath(cyecca.__file__))
+        if not cy.startswith("/repo/"):
+            print(f"note: cyecca imported from {cy} (PYTHONPATH override), not from /repo")
+    except Exception:
+        pass
     modname = PROPS[prop]
     t0 = time.time()
     try:
@@ -141,7 +150,7 @@ def main(argv=None):
         print(f"CHECKER-ERROR while building contracts: {type(e).__name__}: {e}")
         traceback.print_exc()
         return 3
-    hard_timeout = getattr(mod, "HARD_TIMEOUT", {"quick": 900, "thorough": 3600})[tier]
+    hard_timeout = getattr(mod, "HARD_TIMEOUT", {"quick": 900, "thorough": 7200})[tier]
     results, metas, canary_results = [], {}, []
     ctx = mp.get_context("fork")
     with ctx.Pool(min(a.jobs, max(1, len(jobs))), maxtasksperchild=4) as pool:
